@@ -67,3 +67,23 @@ func VerifC12RootEntry() {
 	_, err = hackpadfs.Stat(tfs, "x")
 	verifAssert(err == nil, "an entry of the archive is missing")
 }
+
+// VerifC12ManyDirs: an archive with more directory entries than the unpacker's small buffer pool holds (81),
+// followed by a file: unpacking finishes and everything is there (an entry that borrows a buffer gives it back).
+// One schedule only (round robin): the subject is the count, not the interleaving.
+func VerifC12ManyDirs() {
+	n := verifParam("DIRS")
+	for i := 0; i < n; i++ {
+		verifTarAdd(verifName("d", i)+"/", int('5'), 0755, 0, 1)
+	}
+	verifTarAdd("last", int('0'), 0644, 1, 2)
+	tfs, err := NewReaderFS(context.Background(), verifTarReader(-1, -1), ReaderFSOptions{})
+	verifAssert(err == nil, "NewReaderFS failed")
+	<-tfs.Done()
+	verifReach("done")
+	verifAssert(tfs.UnarchiveErr() == nil, "unpacking an archive of many directory entries failed")
+	_, err = hackpadfs.Stat(tfs, "last")
+	verifAssert(err == nil, "the entry after the directories is missing")
+	_, err = hackpadfs.Stat(tfs, verifName("d", n-1))
+	verifAssert(err == nil, "a directory entry is missing")
+}
